@@ -236,6 +236,7 @@ def run_for(pid: str, files: list[str], seed: int = 0, max_break: int = 160, max
     with ProcessPoolExecutor(max_workers=jobs) as ex:
         results = list(ex.map(_run, picked, chunksize=4))
     fa, killed, survived, errs = [], 0, 0, 0
+    survivors = []
     kinds = {}
     for r in results:
         kind, fam, line = r["site"]
@@ -253,12 +254,14 @@ def run_for(pid: str, files: list[str], seed: int = 0, max_break: int = 160, max
                 k[0] += 1
             else:
                 survived += 1
+                survivors.append({"file": r["file"], "line": line, "kind": kind})
     out.update({
         "benign_run": sum(1 for r in results if r["site"][1] == "benign" and "result" not in r),
         "benign_false_alarms": fa,
         "break_run": killed + survived,
         "break_reported": killed,
         "break_reported_by_operator": {k: f"{v[0]}/{v[1]}" for k, v in sorted(kinds.items())},
+        "survivors": sorted(survivors, key=lambda d: (d["file"], d["line"]))[:400],
         "note": "break mutants include equivalent / property-irrelevant ones; the ratio is a statistic, not a requirement",
     })
     return out
